@@ -939,6 +939,18 @@ func (p *Prog) dischargeAll(obls []*Obligation, timeout time.Duration, dir strin
 			}
 			stopStages()
 			r := runPortfolio(queries[i], timeout, dir, tag, false)
+			if (r.verdict == "unknown" || r.verdict == "timeout") && !o.noLemmas {
+				// the lemmas are consequences of the definitions already in the query; they help proofs but
+				// their quantifiers keep the solvers from reporting a counter-model, so a failing obligation
+				// is asked once more without them (either answer is sound for the query with them)
+				o.noLemmas = true
+				qn := p.BuildQuery(o, nil)
+				o.noLemmas = false
+				rn := runPortfolio(qn, timeout, dir, tag+"n", false)
+				if rn.verdict == "sat" || rn.verdict == "unsat" {
+					r = rn
+				}
+			}
 			if r.verdict == "unknown" || r.verdict == "timeout" {
 				// one retry with a longer budget
 				r2 := runPortfolio(queries[i], 3*timeout, dir, tag, false)
